@@ -186,6 +186,20 @@ fn main() {
             }
             println!("files {} mismatches {}", n, bad);
         }
+
+        "bbzoommin" => {
+            let bytes = write_bb(vec![("chr1",e(0,10)),("chr1",e(0,10))], &[("chr1",2000)], |w|{ w.options.compress=false; w.options.manual_zoom_sizes=Some(vec![10]);});
+            let mut r = BigBedRead::open(Cursor::new(bytes)).unwrap();
+            println!("summary {:?}", r.get_summary().unwrap());
+            for z in r.get_zoom_interval("chr1",0,2000,10).unwrap() { println!("{:?}", z.unwrap()); }
+        }
+
+        "bbphantom" => {
+            let bytes = write_bb(vec![("chr1",e(0,20)),("chr1",e(0,10)),("chr1",e(0,10)),("chr1",e(10,20)),("chr1",e(10,20)),("chr1",e(10,20))], &[("chr1",2000)], |w|{ w.options.compress=false; w.options.manual_zoom_sizes=Some(vec![100]);});
+            let mut r = BigBedRead::open(Cursor::new(bytes)).unwrap();
+            println!("summary {:?}", r.get_summary().unwrap());
+            for z in r.get_zoom_interval("chr1",0,2000,100).unwrap() { println!("{:?}", z.unwrap()); }
+        }
         _ => {}
     }
 }
